@@ -25,7 +25,6 @@ Definition bytes_ok (bs : list N) : Prop := Forall (fun b => b < 256) bs.
 (* ------------------------------------------------------------------ *)
 (* decimal strings: sprintf "%u" and the digit loop of atol/strtoul are inverse   *)
 
-Definition parse_dec (l : list N) : N := digits_val 10 dec_digit 0 l.
 
 Lemma dec_digit_ok d : d < 10 -> dec_digit (48 + d) = Some d.
 Proof.
